@@ -24,6 +24,9 @@ ASSUMPTIONS = [
     'mean the same preprocessing result (that is C02 / C04; hypothesis `consistent` of the theorems)',
     'a compiler that exits 0 has written its object file (`sane`); the output directory exists and is writable '
     '(`f_outdir_ok`): a missing output directory is not a storage fault, the compiler itself fails there',
+    'that bytes changed in place inside a member of a stored entry are always DETECTED (zstd framing or the zip CRC-32) is '
+    'C08\'s theorem; here the model only says what follows from the detection (DecompressionFailure -> miss with read error '
+    '-> compile -> entry rewritten), and the differential leg damages every byte position of every member of real entries',
     'not modelled: distributed compilation, LRU eviction during the request (Model/Lru.v), a storage call that never '
     'returns other than the result lookup (only the lookup has a time-out in the code), process spawn failures',
 ]
@@ -77,6 +80,14 @@ def prefixes(ppmode):
         'ro_empty': [[b'restart', b'ro']],
         'restarted': [req(), [b'restart', b'rw']],
     }
+    # bytes changed in place inside a member's data (obj / stdout / stderr, two positions each)
+    for off in (0, 1, 2, 33, 100, 77):
+        p['res_flip_%d' % off] = [req(), [b'disk', b'res', b'flip', 0, off]]
+    # the cache directory cannot be opened when the stores are first touched; repaired later
+    p['unusable_at_start_repaired'] = [[b'restart_broken'], [b'heal']]
+    p['unusable_at_first_use_repaired'] = [[b'restart_broken'], req(), [b'heal']]
+    p['warm_unusable_at_restart_repaired'] = [req(), [b'restart_broken'], req(), req(1), [b'heal']]
+    p['unusable_now'] = [req(), [b'restart_broken']]
     if ppmode:
         p.update({
             'res_only': [req(f=F(ppput=b'err'))],
@@ -175,10 +186,22 @@ def gen_histories(rng, n, maxlen, par_weight=2, zero_weight=1):
                 if cls == b'compile':
                     seen.add(t)
             elif kind == 'disk':
-                steps.append(disk(rng.choice([b'res', b'pp']), rng.choice([b'garbage', b'truncate', b'empty', b'delete']),
-                                  rng.below(NTU)))
+                if rng.chance(1, 3):
+                    steps.append([b'disk', b'res', b'flip', rng.below(NTU), rng.below(240)])
+                else:
+                    steps.append(disk(rng.choice([b'res', b'pp']), rng.choice([b'garbage', b'truncate', b'empty', b'delete']),
+                                      rng.below(NTU)))
             elif kind == 'restart':
-                steps.append([b'restart', b'ro' if rng.chance(2, 5) else b'rw'])
+                if rng.chance(1, 3):
+                    # unusable cache directory at the restart, repaired a few requests later
+                    steps.append([b'restart_broken'])
+                    for _ in range(rng.below(3)):
+                        t = rng.below(NTU)
+                        steps.append(req(t, b'compile', rng.weighted([(b'default', 7), (b'recache', 2), (b'nocache', 1)])))
+                        seen.add(t)
+                    steps.append([b'heal'])
+                else:
+                    steps.append([b'restart', b'ro' if rng.chance(2, 5) else b'rw'])
             elif kind == 'zero':
                 steps.append([b'zero'])
             else:
@@ -196,6 +219,39 @@ def gen_histories(rng, n, maxlen, par_weight=2, zero_weight=1):
                     rs.append(req(t, cls, cc, 1, None))
                 steps.append([b'par'] + rs)
         out.append([ppmode, orcs, steps])
+    return out
+
+
+def gen_flips(tier):
+    """In-place damage at EVERY byte position of every member of a stored result entry, then two fault-free repeats
+    (the first must fall back to the compiler and re-populate, the second must hit)."""
+    out = []
+    step = 1 if tier == 'thorough' else 2
+    for ppmode in (1, 0):
+        for t in (0, 3):
+            for off in range(0, 3 * 72, step):
+                out.append([ppmode, [ORC_OK] * 4, [req(t), [b'disk', b'res', b'flip', t, off], req(t), req(t)]])
+    # several positions damaged at once, and damage after a restart
+    for k in range(24):
+        offs = [(7 * k + 3) % 200, (11 * k + 40) % 200, (13 * k + 90) % 200]
+        out.append([1, [ORC_OK] * 4, [req(1)] + [[b'disk', b'res', b'flip', 1, o] for o in offs]
+                    + [[b'restart', b'rw'], req(1), req(1)]])
+    return out
+
+
+def gen_first_touch(tier):
+    """The cache directory is unusable exactly when a (re)started server first touches its stores, is repaired later;
+    then a miss must store and the repeat must hit — for a cache that was empty, populated, read-only."""
+    out = []
+    for ppmode in (1, 0):
+        for pre in ([], [req(0)], [req(0), req(1)]):
+            for during in ([], [req(0)], [req(0), req(2, cc=b'recache')], [[b'par', req(0), req(1)]] if pre and len(pre) > 1 else [req(1)]):
+                for mode in (None, b'rw', b'ro'):
+                    steps = list(pre) + [[b'restart_broken']] + list(during)
+                    if mode:
+                        steps.append([b'restart', mode])       # restarted again while still broken
+                    steps += [[b'heal'], req(0), req(0), req(3), req(3)]
+                    out.append([ppmode, [ORC_OK, ORC_OK, ORC_UPD, ORC_OK], steps])
     return out
 
 
@@ -230,6 +286,10 @@ def gen_midzero(rng, n):
 
 # ---------------------------------------------------------------- the specification, evaluated on the real output
 
+def tu_obj(t):
+    return b'obj' + str(t).encode() + bytes((i * i * 7 + i * 13 + t * 29 + 3) % 256 for i in range(48))
+
+
 def direct_of(t, orc, ok):
     pp, upd, cs, cout = orc
     d = str(t).encode()
@@ -241,7 +301,7 @@ def direct_of(t, orc, ok):
         if cout:
             return (1, b'', b'nodir', [])
         return (0, b'out' + d, b'err' + d, [])
-    return (0, b'out' + d, b'err' + d, [b'obj' + d] if cout else [])
+    return (0, b'out' + d, b'err' + d, [tu_obj(t)] if cout else [])
 
 
 def sane(orc):
@@ -288,6 +348,7 @@ def monitor(case, out):
         return ['malformed implementation output: %r' % (out[:2] if isinstance(out, list) else out)]
     prev_good = 0
     ro = False
+    broken = False         # the cache directory cannot be opened
     settled = {}           # tu -> a clean successful request has populated the entry and nothing disturbed it
     for i, (st, ob) in enumerate(zip(steps, out)):
         kind = st[0]
@@ -304,8 +365,11 @@ def monitor(case, out):
             want = direct_of(t, orc, ok)
             if cls == b'compile' and want[0] != 0 and dsk[0] > prev_good:
                 vs.append('step %d: the result of a failed compilation was stored' % i)
-            clean = (cls == b'compile' and cc == b'default' and ok == 1 and f == NOF and sane(orc) and want[0] == 0)
-            if clean and settled.get(t):
+            clean = (cls == b'compile' and cc == b'default' and ok == 1 and f == NOF and sane(orc) and want[0] == 0
+                     and not broken)
+            # re-population is a statement about a WRITABLE cache (a read-only one cannot be re-populated; whether
+            # it serves what it holds is not part of this property)
+            if clean and settled.get(t) and not ro:
                 if ccr != 0 or ppr > 1:
                     vs.append('step %d: the entry was not re-populated: a fault-free repeat of a fault-free request ran the compiler again' % i)
             if cls == b'compile':
@@ -329,6 +393,14 @@ def monitor(case, out):
         elif kind == b'restart':
             ro = st[1] == b'ro'
             prev_good = ob[1][0]
+        elif kind == b'restart_broken':
+            ro = False
+            broken = True
+            prev_good = 0
+        elif kind == b'heal':
+            # the fault is gone: from here on a fault-free miss must store and its repeat must hit
+            broken = False
+            prev_good = ob[1][0]
     return vs
 
 
@@ -339,7 +411,7 @@ def nontrivial(case, out):
             st = st[1]
         if st[0] == b'req' and (st[5] != NOF or st[4] == 0):
             return True
-        if st[0] in (b'disk', b'restart'):
+        if st[0] in (b'disk', b'restart', b'restart_broken'):
             return True
     return False
 
@@ -402,22 +474,27 @@ def neighbours(case):
 def legs(tier):
     def gen(rng, tier):
         if tier == 'thorough':
-            return gen_table(tier) + gen_histories(rng, 20000, 16) + gen_midzero(rng, 2000)
-        return gen_table(tier) + gen_histories(rng, 2500, 14) + gen_midzero(rng, 150)
+            return (gen_table(tier) + gen_flips(tier) + gen_first_touch(tier) + gen_histories(rng, 20000, 16)
+                    + gen_midzero(rng, 2000))
+        return (gen_table(tier) + gen_flips(tier) + gen_first_touch(tier) + gen_histories(rng, 2500, 14)
+                + gen_midzero(rng, 150))
     return [Leg('reqsm', gen, monitor=monitor, nontrivial=nontrivial, shrink=shrink, neighbours=neighbours, stats=stats,
-                rule='single-request table: every reachable cache state (empty, warm, entry garbage/truncated/deleted, '
+                rule='single-request table: every reachable cache state (empty, warm, entry garbage/truncated/deleted/damaged in '
+                     'place inside a member, cache directory unusable at first use and repaired, '
                      'preprocessor entry garbage/truncated/empty/deleted, read-only, restarted) x compiler outcome '
                      '(ok, header with __TIMESTAMP__, preprocessor fails, compiler fails, exit 0 without object) x cache '
                      'control x fault assignment (6 ppget x 3 ppupd x 3 ppput x 8 get x 4 put; full product for the '
                      'empty/warm states in quick and everywhere in thorough, <=2 / <=1 simultaneous faults elsewhere), '
                      'each followed by two fault-free repeats; plus PRNG histories over 4 translation units mixing '
-                     'requests of all classes, disk damage, restarts (rw/ro), zeroing and concurrent requests; '
+                     'requests of all classes, disk damage incl. in-place byte changes, restarts (rw/ro/with an unusable cache '
+                     'directory, repaired later), zeroing and concurrent requests; plus in-place damage at every byte position of '
+                     'every member of a stored entry and the first-touch-failure histories; '
                      'non-trivial = some fault, damage or restart occurs; distinct by case text')]
 
 
 # ---------------------------------------------------------------- end to end (real server + gcc)
 
-E2E_QUICK = ['res_truncate', 'res_overwrite', 'res_delete', 'res_directory', 'pp_truncate', 'pp_overwrite', 'pp_empty',
+E2E_QUICK = ['res_flip150', 'res_flip450', 'res_flip750', 'res_flip995', 'res_flip500x4_restart', 'res_truncate', 'res_overwrite', 'res_delete', 'res_directory', 'pp_truncate', 'pp_overwrite', 'pp_empty',
              'pp_delete', 'pp_directory', 'both_truncate', 'res_overwrite_restart', 'pp_truncate_restart',
              'cache_dir_removed', 'cache_dir_is_a_file', 'tiny_size_limit', 'read_only_mode']
 
@@ -443,7 +520,9 @@ def extra(rep, known):
     with ThreadPoolExecutor(max_workers=6) as ex:
         results = list(ex.map(lambda n: c09_e2e.run_fault_scenario(sccache, n), names))
         results += list(ex.map(lambda t: c09_e2e.run_eviction_scenario(sccache, t), ['pp', 'res']))
-    names = list(names) + ['pp_directory_then_eviction', 'res_directory_then_eviction']
+        results += list(ex.map(lambda m: c09_e2e.run_first_touch_scenario(sccache, m), ['empty', 'populated']))
+    names = list(names) + ['pp_directory_then_eviction', 'res_directory_then_eviction',
+                           'unusable_at_first_use_empty', 'unusable_at_first_use_populated']
     bad = 0
     skipped = 0
     for r in results:
@@ -468,7 +547,8 @@ def extra(rep, known):
     rep.rule.append('e2e: per-file truncate / empty / overwrite / delete / replace-by-directory on the result entry and on the '
                     'preprocessor-cache entry (with and without a server restart), cache directory removed / replaced by a '
                     'file, 1-byte size limit, read-only mode, an entry replaced by a directory and then evicted under a small size '
-                    'limit; after the damage: same unit twice, a new unit, a failing unit '
+                    'limit, bytes changed in place inside the stored object at several positions, cache directory unusable when the '
+                    'server first touches it and repaired later (then a miss must store and the repeat must hit); after the damage: same unit twice, a new unit, a failing unit '
                     'twice; exit code, stdout, stderr and object compared with a direct gcc run, hit after re-population, '
                     'compile_fails, counter laws')
     pipeline.log('leg e2e: %d scenarios, %d bad, %d skipped, %.1fs' % (len(names), bad, skipped, time.time() - t0))
